@@ -1,7 +1,7 @@
 (* C35 -- check functions of the correspondence (evaluated by vm_compute).  No proofs. *)
 From Coq Require Import ZArith QArith Qround Qabs Qminmax List Bool.
 Import ListNotations.
-Require Import NV.C35.Model.
+Require Import NV.C35.Model NV.C35.ModelAdj.
 Local Open Scope Q_scope.
 
 Fixpoint list_qeq (a b : list Q) : bool :=
@@ -43,6 +43,7 @@ Definition los_total (eps : Q) (start endp : list Q) (shp : list Z) : Q :=
   end.
 
 Definition regrid_case (v : list Q) (n_new : Z) (expected : list Q) : bool := list_qeq (regrid_1d v n_new) expected.
+Definition regrid_adj_case (w : list Q) (n_old : Z) (expected : list Q) : bool := list_qeq (regrid_adj_1d w n_old) expected.
 Definition pad_case (central : bool) (v : list Q) (n_new : nat) (expected : list Q) : bool :=
   list_qeq (pad_1d central v n_new) expected.
 Definition crop_case (central : bool) (v : list Q) (n_small : nat) (expected : list Q) : bool :=
